@@ -150,7 +150,7 @@ def greedy_substitution(model, X, motifs, y, loss=torch.nn.MSELoss(
 		for idx, motif in enumerate(tqdm(motifs, disable=not verbose)):
 			motif_ohe = one_hot_encode(motif, alphabet=alphabet).numpy()
 			
-			X_ = X.repeat(X.shape[-1] - len(motif), 1, 1).numpy(force=True)
+			X_ = X.repeat(X.shape[-1] - len(motif) + 1, 1, 1).numpy(force=True)
 			_fast_tile_substitute(X_, motif_ohe)
 			X_ = torch.from_numpy(X_)
 
